@@ -10,6 +10,7 @@ scale invariance and the zero-spread closed form.
 import numpy as np
 
 from ..ctx import biteq, close, maxrel
+from .. import gen
 from ..models import voronoi as MV
 
 PROPERTY = "C14"
@@ -93,6 +94,13 @@ def fam_layout(ctx, rng):
         return
     try:
         Pa, Ba = (P.tolist(), B.tolist()) if rng.random() < 0.3 else (P, B)      # nested lists or arrays
+        if rng.random() < 0.3:
+            # other array forms of the same values: Fortran order, read-only, rows of a larger table, big-endian,
+            # a transposed view, a list of row arrays (what np.loadtxt(..., unpack=True).T or a CSV reader hands over)
+            Pa, form_p = gen.reform(rng, P)
+            Ba, form_b = gen.reform(rng, B)
+            info["forms"] = [form_p, form_b]
+            ctx.count("calls_with_arguments_in_other_forms")
         w, ind = hvsrpy.HvsrSpatial(Pa).spatial_weights(Ba)
     except Exception as e:
         ctx.check(False, "no-unexpected-error", f"spatial_weights raised {e!r}", **info)
@@ -164,8 +172,30 @@ def fam_montecarlo(ctx, rng):
     info = dict(generators=g, distribution_generators=dg, distribution_spatial=ds, n_realizations=N, zero_spread=zero, seed=seed)
     ctx.describe(**info, means=means[:5], stds=stds[:5], weights=wts[:5])
 
+    # the three per-generator vectors as a caller may hold them: arrays, lists / tuples, or columns of a pandas table that
+    # was sorted / sampled (same positional order, integer index labels permuted)
+    container = str(rng.choice(["ndarray", "ndarray", "list", "tuple", "pandas-series-permuted-index", "pandas-series-default-index",
+                                "strided-view"]))
+    info["container"] = container
+
+    def held(v):
+        v = np.asarray(v, dtype=float)
+        if container == "list":
+            return v.tolist()
+        if container == "tuple":
+            return tuple(v.tolist())
+        if container.startswith("pandas"):
+            import pandas as pd
+            idx = np.random.default_rng(seed).permutation(v.size) if "permuted" in container else np.arange(v.size)
+            return pd.Series(v, index=idx)
+        if container == "strided-view":
+            buf = np.full(v.size * 2, np.nan)
+            buf[::2] = v
+            return buf[::2]
+        return v
+
     def call(w=wts, s=seed):
-        return hvsrpy.montecarlo_fn(means, stds, w, distribution_generators=dg, distribution_spatial=ds,
+        return hvsrpy.montecarlo_fn(held(means), held(stds), held(w), distribution_generators=dg, distribution_spatial=ds,
                                     n_realizations=N, rng=np.random.default_rng(s))
     with np.errstate(all="ignore"):
         m, sd, real = call()
